@@ -30,6 +30,11 @@ def c17Run (ver : Ver) (method target authority : Bytes) (headers : List (Bytes 
   match forwardRequest r body with
   | none => "refused:refused answered=[400]"
   | some req =>
+    -- flow-control credit: the serialised head is the endpoint's own; under any acceptance schedule the body source
+    -- is credited what was accepted beyond it (`request_credit_exact`) - the one-shot schedule stands for all
+    let headLen := match serializeRequest r with
+      | .ok bytes _ => bytes.length
+      | .refused => 0
     let s := feed (Sink.init ver method quotas) origin
     let s := if close then s.eof else s
     let c := s.client
@@ -40,7 +45,7 @@ def c17Run (ver : Ver) (method target authority : Bytes) (headers : List (Bytes 
       | some p, _ => s!"at{p}"
       | none, some (_, true, _) => "head"
       | none, _ => if c.bad then "head" else "none"
-    s!"req={TT.toHex req} reqeof=1 interim=[{",".intercalate (c.interims.map toString)}] head=[{head}] body={TT.toHex c.body} ceof={ceof}"
+    s!"req={TT.toHex req} reqeof=1 interim=[{",".intercalate (c.interims.map toString)}] head=[{head}] body={TT.toHex c.body} ceof={ceof} rel={(creditAfter headLen [req.length]).released}"
 
 def c17 (toks : List String) : String :=
   match toks with
